@@ -268,3 +268,45 @@ extern "C" void k_oct_unit(void) {
   }
   verif_reach();
 }
+
+// ---- texture-coordinate (portable) predictor, decoder side, on an arbitrary in-range table and real position attribute
+#include "draco/attributes/geometry_attribute.cc"
+#include "draco/attributes/point_attribute.cc"
+#include "draco/core/data_buffer.cc"
+#include "draco/core/draco_types.cc"
+#include "draco/compression/attributes/prediction_schemes/mesh_prediction_scheme_tex_coords_portable_predictor.h"
+struct LiteMD {
+  typedef LiteTable CornerTable;
+  const LiteTable *t; const std::vector<int32_t> *v2d;
+  const LiteTable *corner_table() const { return t; }
+  const std::vector<int32_t> *vertex_to_data_map() const { return v2d; }
+};
+extern "C" void k_texcoords(void) {
+  LiteTable ct; int32_t v2d_s[NE]; std::vector<int32_t> v2d;
+  for (int c = 0; c < NC; ++c) { uint32_t v = nondet_u32(); verif_assume(v < NE); ct.c2v[c] = v; ct.opp[c] = kInvalidCornerIndex.value(); }
+  for (int i = 0; i < NE; ++i) { int32_t d = nondet_i32(); verif_assume(d >= 0 && d < NE); v2d_s[i] = d; }
+  verif_adopt(v2d, v2d_s, NE, NE);
+  LiteMD md{&ct, &v2d};
+  // position attribute over harness-owned storage (no allocation / size arithmetic in the set-up)
+  int32_t store[NE * 3];
+  for (int i = 0; i < NE * 3; ++i) { store[i] = nondet_i32(); verif_assume(store[i] >= -(1 << 21) && store[i] < (1 << 21)); }  // quantized positions
+  DataBuffer buf; verif_adopt(buf.data_, (uint8_t *)store, sizeof(store), sizeof(store));
+  GeometryAttribute ga; ga.Init(GeometryAttribute::POSITION, &buf, 3, DT_INT32, false, 12, 0);
+  PointAttribute pos(ga); pos.SetIdentityMapping(); pos.num_unique_entries_ = NE;
+  PointIndex ids[NE]; for (int i = 0; i < NE; ++i) ids[i] = PointIndex(i);
+  MeshPredictionSchemeTexCoordsPortablePredictor<int32_t, LiteMD> pr(md);
+  pr.SetPositionAttribute(pos); pr.SetEntryToPointIdMap(ids);
+  pr.ResizeOrientations(1); pr.set_orientation(0, nondet_bool());
+  int32_t data[NE * 2]; for (int i = 0; i < NE * 2; ++i) data[i] = nondet_i32();
+  int data_id = nondet_i32(); verif_assume(data_id >= 0 && data_id < NE);
+  uint32_t ci = nondet_u32(); verif_assume(ci < NC);
+  const bool ok = pr.ComputePredictedValue<false>(CornerIndex(ci), data, data_id);
+  OBS(ok); if (ok) { OBS((uint32_t)pr.predicted_value()[0]); OBS((uint32_t)pr.predicted_value()[1]); }
+  OBS(pr.num_orientations());
+  verif_release(v2d); verif_release(buf.data_); verif_reach();
+}
+extern "C" void k_intsqrt(void) {
+  uint64_t n = nondet_u64(); verif_assume(n < (1ull << 20));
+  OBS(IntSqrt(n));
+  verif_reach();
+}
